@@ -514,9 +514,22 @@ Definition s_setchunk (s : simg) : simg :=
 (** argument check of GRwriteimage / GRreadimage (strides and counts at least 1; starts are naturals) *)
 Definition args_ok (r : rgn) : bool := (1 <=? r_tx r) && (1 <=? r_ty r) && (1 <=? r_cx r) && (1 <=? r_cy r).
 
+(** A compressed image that already exists in the file is accessed through the buffered driver (which allows
+    region writes) iff GRIget_image_list's test "GRIisspecial_type(..) == code" can succeed for compressed data:
+    the code it compares with is SPECIAL_COMP and GRIisspecial_type reports that code. *)
+Definition selected_comp_buffered : bool :=
+  Z.eqb select_buffers_code SPECIAL_COMP && existsb (Z.eqb select_buffers_code) isspecial_reported.
+
+(** the compression coders refuse random writes: without the buffered driver only whole-image writes succeed *)
+Definition comp_write_refused (m : mimg) (r : rgn) : bool :=
+  match m_store m, m_elt m with
+  | StComp, Some _ => negb selected_comp_buffered && negb (whole_image (gx (m_g m)) (gy (m_g m)) r)
+  | _, _ => false
+  end.
+
 Definition m_writeimage (m : mimg) (r : rgn) (bytes : list Z) : option (mimg * list tr_item) :=
   let g := m_g m in
-  if negb (args_ok r) then None
+  if negb (args_ok r) || comp_write_refused m r then None
   else
     let user := group (gcs g) (r_cx r * r_cy r * gnc g) bytes in
     let e' := m_write (codec (gswap g)) (repeat 0%Z (gcs g)) (m_elt m) (gx g) (gy g) (gnc g) (m_wil m) r
@@ -539,7 +552,10 @@ Definition m_readimage (m : mimg) (r : rgn) : option (list Z * list tr_item) :=
   let g := m_g m in
   if negb (args_ok r) then None
   else match m_elt m with
-       | None => Some (concat (m_read_nodata (repeat 0%Z (gcs g)) (gnc g) (m_ril m) r (fill_of g (m_fill m))), [])
+       | None => (* no data: the fill pixel in force now (GRreadimage looks the attribute up on every call; a
+                    cached pixel would be the stale default) *)
+                 Some (concat (m_read_nodata (repeat 0%Z (gcs g)) (gnc g) (m_ril m) r
+                                             (if rd_nodata_caches_fill then zero_px g else fill_of g (m_fill m))), [])
        | Some e => Some (concat (m_read (codec (gswap g)) (repeat 0%Z (gcs g)) e (gx g) (gy g) (gnc g) (m_ril m) r),
                          rtrace (gx g) (gy g) (gcs g * gnc g) r)
        end.
